@@ -80,6 +80,33 @@ type Network struct {
 	Spawn func(name string, f func())
 	// Log records an event in the run's trace.
 	Log func(format string, args ...any)
+	// evSeq orders delegate invocations; leaveAt[o][l] / mergeAt[o][l] are the sequence numbers of
+	// the last NotifyLeave(l) and the last MergeRemoteState(state of l) that completed at node o.
+	evSeq   int
+	leaveAt map[string]map[string]int
+	mergeAt map[string]map[string]int
+}
+
+func (n *Network) note(tab *map[string]map[string]int, at, about string) {
+	n.mu.Lock()
+	defer n.mu.Unlock()
+	if *tab == nil {
+		*tab = map[string]map[string]int{}
+	}
+	if (*tab)[at] == nil {
+		(*tab)[at] = map[string]int{}
+	}
+	n.evSeq++
+	(*tab)[at][about] = n.evSeq
+}
+
+// MergedAfterLeave reports whether node `at` merged a full state of node `left` after it had
+// been notified that `left` is gone.
+func (n *Network) MergedAfterLeave(at, left string) bool {
+	n.mu.Lock()
+	defer n.mu.Unlock()
+	l := n.leaveAt[at][left]
+	return l > 0 && n.mergeAt[at][left] > l
 }
 
 var (
@@ -194,7 +221,9 @@ func (m *Memberlist) Join(addrs []string) (int, error) {
 		mine := m.cfg.Delegate.LocalState(true)
 		theirs := peer.cfg.Delegate.LocalState(true)
 		peer.cfg.Delegate.MergeRemoteState(mine, true)
+		m.net.note(&m.net.mergeAt, peer.cfg.Name, m.cfg.Name)
 		m.cfg.Delegate.MergeRemoteState(theirs, true)
+		m.net.note(&m.net.mergeAt, m.cfg.Name, peer.cfg.Name)
 		ok++
 	}
 	if ok == 0 && lastErr != nil {
@@ -316,7 +345,10 @@ func (n *Network) Deliver(seq int, keep bool) {
 		delete(dst.members, p.Node.Name)
 		n.mu.Unlock()
 		if dst.cfg.Events != nil {
-			n.Spawn(name, func() { dst.cfg.Events.NotifyLeave(p.Node) })
+			n.Spawn(name, func() {
+				dst.cfg.Events.NotifyLeave(p.Node)
+				n.note(&n.leaveAt, dst.cfg.Name, p.Node.Name)
+			})
 		}
 	}
 }
@@ -351,7 +383,9 @@ func (n *Network) PushPull(a, b string) bool {
 		sa := na.cfg.Delegate.LocalState(false)
 		sb := nb.cfg.Delegate.LocalState(false)
 		nb.cfg.Delegate.MergeRemoteState(sa, false)
+		n.note(&n.mergeAt, b, a)
 		na.cfg.Delegate.MergeRemoteState(sb, false)
+		n.note(&n.mergeAt, a, b)
 	})
 	return true
 }
